@@ -14,6 +14,8 @@ thread_local! {
 #[derive(Clone, Copy, Debug, PartialEq)]
 enum Status {
     Ready(&'static str),
+    /// parked because a lock it wants is held; becomes Ready as soon as another thread has run
+    Blocked(&'static str),
     Running,
     Done,
 }
@@ -22,6 +24,15 @@ struct St {
     status: Vec<Status>,
     running: Option<usize>,
 }
+impl St {
+    fn wake_waiters(st: &mut St) {
+        for s in st.status.iter_mut() {
+            if let Status::Blocked(site) = *s {
+                *s = Status::Ready(site);
+            }
+        }
+    }
+}
 
 pub struct Inner {
     st: Mutex<St>,
@@ -29,6 +40,8 @@ pub struct Inner {
     gates: Vec<(Mutex<bool>, Condvar)>,
     seq: AtomicU64,
     points: AtomicU64,
+    lock_waits: AtomicU64,
+    deadlock: std::sync::atomic::AtomicBool,
 }
 
 fn lock<T>(m: &Mutex<T>) -> std::sync::MutexGuard<'_, T> {
@@ -36,10 +49,14 @@ fn lock<T>(m: &Mutex<T>) -> std::sync::MutexGuard<'_, T> {
 }
 
 impl Inner {
-    fn park(&self, tid: usize, site: &'static str) {
+    fn park(&self, tid: usize, site: &'static str, blocked: bool) {
         {
             let mut st = lock(&self.st);
-            st.status[tid] = Status::Ready(site);
+            st.status[tid] = if blocked { Status::Blocked(site) } else { Status::Ready(site) };
+            if !blocked {
+                // this thread made progress (it may have released a lock): lock waiters may retry
+                St::wake_waiters(&mut st);
+            }
             st.running = None;
             self.ctrl.notify_all();
         }
@@ -71,8 +88,27 @@ impl Hook {
     fn point(&self, site: &'static str) {
         if let Some(tid) = TID.with(Cell::get) {
             self.0.points.fetch_add(1, Ordering::Relaxed);
-            self.0.park(tid, site);
+            self.0.park(tid, site, false);
         }
+    }
+    fn blocked(&self, site: &'static str) {
+        if let Some(tid) = TID.with(Cell::get) {
+            self.0.lock_waits.fetch_add(1, Ordering::Relaxed);
+            if self.0.deadlock.load(Ordering::SeqCst) {
+                panic!("deadlock: every unfinished task is waiting for a lock ({site})");
+            }
+            self.0.park(tid, site, true);
+        } else {
+            std::thread::yield_now();
+        }
+    }
+}
+impl cascette_client_storage::verif_hooks::SchedController for Hook {
+    fn sched_point(&self, site: &'static str) {
+        self.point(site);
+    }
+    fn lock_blocked(&self, site: &'static str) {
+        self.blocked(site);
     }
 }
 impl cascette_cache::verif_hooks::SchedController for Hook {
@@ -96,6 +132,8 @@ pub struct RunResult {
     /// (thread, site it was parked at when chosen)
     pub schedule: Vec<(usize, &'static str)>,
     pub points: u64,
+    /// times a task found a (shim) lock held and had to wait
+    pub lock_waits: u64,
     /// a task panicked: (thread, message)
     pub panics: Vec<(usize, String)>,
 }
@@ -109,6 +147,8 @@ pub fn run(tasks: Vec<Box<dyn FnOnce(&Arc<Inner>) + Send>>, strategy: &Strategy,
         gates: (0..n).map(|_| (Mutex::new(false), Condvar::new())).collect(),
         seq: AtomicU64::new(0),
         points: AtomicU64::new(0),
+        lock_waits: AtomicU64::new(0),
+        deadlock: std::sync::atomic::AtomicBool::new(false),
     });
     install(Some(Arc::new(Hook(inner.clone()))));
     let panics: Arc<Mutex<Vec<(usize, String)>>> = Arc::new(Mutex::new(Vec::new()));
@@ -129,6 +169,7 @@ pub fn run(tasks: Vec<Box<dyn FnOnce(&Arc<Inner>) + Send>>, strategy: &Strategy,
                 }
                 TID.with(|t| t.set(None));
                 let mut st = lock(&inner2.st);
+                St::wake_waiters(&mut st);
                 st.status[tid] = Status::Done;
                 st.running = None;
                 inner2.ctrl.notify_all();
@@ -146,14 +187,27 @@ pub fn run(tasks: Vec<Box<dyn FnOnce(&Arc<Inner>) + Send>>, strategy: &Strategy,
     let mut low = 100u64;
     let mut schedule: Vec<(usize, &'static str)> = Vec::new();
     let mut last: Option<usize> = None;
+    let mut idle_rounds = 0usize;
     loop {
         let mut st = lock(&inner.st);
         while st.running.is_some() {
             st = inner.ctrl.wait(st).unwrap_or_else(std::sync::PoisonError::into_inner);
         }
-        let ready: Vec<(usize, &'static str)> = st.status.iter().enumerate().filter_map(|(i, s)| if let Status::Ready(site) = s { Some((i, *site)) } else { None }).collect();
+        let mut ready: Vec<(usize, &'static str)> = st.status.iter().enumerate().filter_map(|(i, s)| if let Status::Ready(site) = s { Some((i, *site)) } else { None }).collect();
         if ready.is_empty() {
-            break;
+            // only lock-waiters (or nobody) left: let the waiters retry; if a whole round of retries
+            // makes no progress the tasks are deadlocked, and the waiters are told to give up (panic)
+            let waiters: Vec<(usize, &'static str)> = st.status.iter().enumerate().filter_map(|(i, s)| if let Status::Blocked(site) = s { Some((i, *site)) } else { None }).collect();
+            if waiters.is_empty() {
+                break;
+            }
+            if idle_rounds > waiters.len() + 1 {
+                inner.deadlock.store(true, Ordering::SeqCst);
+            }
+            idle_rounds += 1;
+            ready = vec![waiters[(idle_rounds - 1) % waiters.len()]];
+        } else {
+            idle_rounds = 0;
         }
         let d = schedule.len();
         let pick = match strategy {
@@ -185,5 +239,5 @@ pub fn run(tasks: Vec<Box<dyn FnOnce(&Arc<Inner>) + Send>>, strategy: &Strategy,
     }
     install(None);
     let p = lock(&panics).clone();
-    RunResult { schedule, points: inner.points.load(Ordering::Relaxed), panics: p }
+    RunResult { schedule, points: inner.points.load(Ordering::Relaxed), lock_waits: inner.lock_waits.load(Ordering::Relaxed), panics: p }
 }
